@@ -13,7 +13,7 @@ import (
 func init() {
 	run.Register(&run.Spec{
 		ID: "C03", Run: runC03, Level: "exploration",
-		Rule: "type-directed random programs (depth<=5, built-ins + harness strict/lazy/poly/mono functions, deliberate partial-operation failures), " +
+		Rule: "type-directed random programs (depth<=5, built-ins + harness strict/lazy/poly/mono functions, deliberate partial-operation failures), the enumerated families (laziness, wide operands, equal instants in different time.Locations under every comparison, object layouts, colliding renderings, rendering-like string literals), " +
 			"wide literals and calls across the 42/255/256/542/1024 size limits, duplicate-key maps, nested lazy calls, token-mutated sources that still compile; " +
 			"each run on vm-switch, vm-callthread (hook), closure, interp; compared by exact structural value identity, failure class and ordered host-call trace. " +
 			"distinct = distinct source text; non-trivial = accepted by at least one back end and containing a call/member/subscript",
@@ -318,7 +318,12 @@ func runC03(c *run.Ctx) {
 			}
 		})
 	}
-	for i, pc := range append(lazyCases(), wideThunkCases()...) {
+	families := append(lazyCases(), wideThunkCases()...)
+	families = append(families, timeLocationCases()...)
+	families = append(families, layoutEqualityCases()...)
+	families = append(families, collisionCases()...)
+	families = append(families, confusableCases()...)
+	for i, pc := range families {
 		if !c.Mine(i) {
 			continue
 		}
